@@ -21,7 +21,7 @@ import sys
 import numpy as np
 
 import models as M
-from common import (Check, MachineryError, RawTLA, main_wrapper, run_tlc, run_workers, stage_spec, tlc_printed_values, to_tla,
+from common import (handle_crash, Check, MachineryError, RawTLA, main_wrapper, run_tlc, run_workers, stage_spec, tlc_printed_values, to_tla,
                     validate_records, worker_main, write_live_module)
 
 REPO = os.environ.get("CIDER_REPO", "/repo")
@@ -173,7 +173,8 @@ def density(name, spin):
         # LiH: the auxiliary basis is derived from the ORBITAL basis per angular momentum; with s-only hydrogen (6-31g) the diffuse bond
         # density assigned to H has no matching p/d auxiliary functions and a 2-4 % error remains that no public refinement
         # parameter reaches (DESIGN section 7); with a polarised basis the expansion is accurate to 1e-3 and the ladder decides
-        mol = M.make_mol(name, basis="def2-svp" if name == "LiH" else ("6-31g" if name in LIGHT else "sto-3g"))
+        base = name.split("@")[0]       # name@bohr: the same molecule with its geometry given in Bohr
+        mol = M.make_mol(name, basis="def2-svp" if base == "LiH" else ("6-31g" if base in LIGHT else "sto-3g"))
         ks = dft.UKS(mol) if spin == "perspin" else dft.RKS(mol)
         ks.xc = "PBE"
         ks.grids.level = 1
@@ -451,7 +452,7 @@ def main():
     for k, c in enumerate(chosen):
         ladder = (not quick) or k % 4 == 0
         interps = c["interps"] if ((not quick) or k % 3 == 0) else ["onsite_direct"]
-        jobs.append({"id": len(jobs), "fam": "nldf", "case": {x: c[x] for x in c if x not in ("interp", "interps")}, "mol": ("OH" if k % 3 == 1 else "HeH+") if c["spin"] == "perspin" else "HeH+",
+        jobs.append({"id": len(jobs), "fam": "nldf", "case": {x: c[x] for x in c if x not in ("interp", "interps")}, "mol": ("OH" if k % 3 == 1 else "HeH+") if c["spin"] == "perspin" else ("HeH+@bohr" if k % 4 == 2 else "HeH+"),
                      "rungs": [0, 1, 2] if ladder else ([1] if k % 2 else [2]), "interps": interps, "grid_level": 2, "stride": 9 if quick else 5})
     if not quick:
         for c in chosen[:: 7]:
@@ -464,7 +465,7 @@ def main():
         for spin in ("restricted", "perspin"):
             if quick and spin == "perspin" and kind not in ("G1", "Full"):
                 continue
-            jobs.append({"id": len(jobs), "fam": "sdmx", "kind": kind, "pows": pows, "spin": spin, "mol": "OH" if spin == "perspin" else "HeH+",
+            jobs.append({"id": len(jobs), "fam": "sdmx", "kind": kind, "pows": pows, "spin": spin, "mol": "OH" if spin == "perspin" else ("HeH+@bohr" if kind in ("G", "Full") else "HeH+"),
                          "rungs": [0, 1, 2] if (kind in ("G1", "Full") or not quick) else [1], "grid_level": 3, "stride": 197 if quick else 97})
     dcases = [c for c in chosen if c["plan"] == "gaussian" and c["ladder"] == "etb"]
     seen = set()
@@ -473,14 +474,15 @@ def main():
             continue
         seen.add((c["ver"], c["spin"]))
         jobs.append({"id": len(jobs), "fam": "descriptors-nldf", "case": {x: c[x] for x in c if x not in ("interp", "interps")},
-                     "mol": "OH" if c["spin"] == "perspin" else "HeH+", "spin": c["spin"], "grid_level": 2, "stride": 9})
-    jobs.append({"id": len(jobs), "fam": "descriptors-sdmx", "kind": "G1", "pows": [0, 1, 2], "spin": "restricted", "mol": "HeH+", "grid_level": 3, "stride": 197})
+                     "mol": "OH" if c["spin"] == "perspin" else ("HeH+@bohr" if c["ver"] in ("j", "k") else "HeH+"), "spin": c["spin"], "grid_level": 2, "stride": 9})
+    jobs.append({"id": len(jobs), "fam": "descriptors-sdmx", "kind": "G1", "pows": [0, 1, 2], "spin": "restricted", "mol": "HeH+@bohr", "grid_level": 3, "stride": 197})
     jobs.append({"id": len(jobs), "fam": "descriptors-sdmx", "kind": "G1", "pows": [0, 1], "spin": "perspin", "mol": "OH", "grid_level": 3, "stride": 197})
     ck.log("%d jobs (%d NLDF cases%s)" % (len(jobs), len(chosen), "" if ncov is None else ", pairwise %d/%d" % (ncov, nall)))
     records, worst = [], {}
     for res in run_workers(os.path.abspath(__file__), jobs, nproc=16, timeout=10000):
         if "crash" in res:
-            raise MachineryError("worker crashed: %s\n%s" % (res["crash"], res.get("tb")))
+            handle_crash(ck, res)
+            continue
         job = jobs[res["id"]]
         ck.count(key=res["id"], n=max(1, sum(len(x["err"]) for x in res["rungs"])))
         for v in res["viol"]:
@@ -488,7 +490,7 @@ def main():
         if not res["rungs"]:
             continue
         sd = job["fam"].endswith("sdmx")
-        bound = SDMX_BOUND if sd else (NLDF_BOUND if job["mol"] in LIGHT else NLDF_BOUND_HEAVY)
+        bound = SDMX_BOUND if sd else (NLDF_BOUND if job["mol"].split("@")[0] in LIGHT else NLDF_BOUND_HEAVY)
         rec = {"id": str(res["id"]), "fam": job["fam"], "_job": job,
                "rungs": [x["rung"] for x in res["rungs"]],
                "err": [[min(int(round(e * PPM)), 10 ** 9) for e in x["err"]] for x in res["rungs"]],
